@@ -23,6 +23,7 @@ META = {
 }
 META["explanation"] += ' R06.6 lag => reset: the result of every receive is examined for `Lagged`, and every path from a Lagged edge passes the lag handler before the stream returns or receives again (a swallowed Lagged loses messages without a Reset).'
 META["explanation"] += ' R05.4 (snapshot and receiver taken in one `&self` call) and R08.2 (one Sender, never cloned into something that outlives the vector) are part of the shared im_core group.'
+META["explanation"] += " R06.7 every Poll::Pending the vector streams build is dominated by a poll of the receive future (Pending is the channel's answer; no Pending while diffs of a message are still in hand)."
 
 SHRINKING = r"bin:(Div|Sub|Shr|Rem)|::(min|saturating_sub|checked_sub|wrapping_sub|div_ceil|checked_div|isqrt|ilog2|ilog10)$"
 
@@ -39,6 +40,7 @@ def run(ctx):
         r06_4(ctx, lag)
     r06_5(ctx)
     r06_6(ctx)
+    r06_7(ctx)
     from . import groups
     groups.im_core(ctx)
 
@@ -361,3 +363,33 @@ def r06_6(ctx):
             elif blk in b.reachable():
                 ctx.holds("R06.6", f, "lag-distinguished", b.line_at((blk, 10 ** 6)), "the receive's error is examined for Lagged")
     ctx.floor("R06.6", n, 3)
+
+
+
+def r06_7(ctx):
+    """Pending means "caught up": the stream reports Pending only as the answer of the channel (the receive future's own Pending).
+    A Pending built anywhere else - e.g. a cooperative yield while diffs of a multi-diff message are still in hand - is observed
+    with a replica that is a torn prefix of a transaction."""
+    F = ctx.facts
+    lag = find_lag_handler(F)
+    n = 0
+    for f in F.find(crate=IM, name="poll_next"):
+        st = f.raw.get("self_ty") or ""
+        if f.raw.get("impl_trait") != "futures_core::Stream" or "VectorSubscriber" not in st:
+            continue
+        rfut = [g for g in F.find(crate=IM) if (g.raw.get("self_ty") or "").startswith("vector::subscriber::ReusableBoxRecvFuture<")]
+        b = inl(F, f, lag, *rfut)
+        recv_blks = [blk for blk, t in b.calls(r"ReusableBoxRecvFuture::<.*>::poll$|Future>?::poll$")]
+        for loc, kind, payload in blocks_assigning_ret(b):
+            if kind != "assign":
+                continue
+            e = strip(b.expr_of_rv(payload, 6, (), loc), through_calls=False)
+            v = agg_variant(e)
+            if not v or v[0] != "std::task::Poll" or v[1] != "Pending":
+                continue
+            n += 1
+            ok = any(b.dominates(rb, loc[0]) for rb in recv_blks)
+            ctx.verdict(ok, "R06.7", f, "pending-is-the-channels-answer", b.line_at(loc), "Pending is returned after the receive future was polled",
+                        "`%s` returns Pending on a path that has not asked the channel: items it already holds (the rest of a transaction's message) stay undelivered while the consumer sees Pending, i.e. observes a state the vector never had" % f.path)
+    if n == 0:
+        ctx.holds("R06.7", None, "pending-is-the-channels-answer", None, "the vector streams build no Pending of their own: the only Pending is the receive future's result passed through")
